@@ -28,11 +28,14 @@ META = {
             'table) comparing calls and state after every operation; random longer runs with re-entrant start/stop '
             'and runs with a second thread preempting cycle() at every executed line are validated by TLC '
             '(Trace_StateMachine); status updates of a real HasStates Drivable, sequential and line-preempted, are '
-            'validated against BusyWhileRunning (Trace_HasStates).',
+            'validated against BusyWhileRunning (Trace_HasStates) incl. the module\'s own isBusy/isDriving verdicts, '
+            'the status due after stop / final_status / on_error and fast-poll switching. Construction with '
+            'attributes / a first state, loop limits 1, 2, 3 and the default, and start() with a keyword that '
+            'collides with a class attribute are part of the alphabet.',
     'note': 'Bounded: depth / call budget of Gen, alphabets of 2-5 state functions, one preemption by one other '
             'thread per cycle at line granularity (GIL). Trusted: TLC; the closures/projection in '
-            'harness/props/c14.py. Outside the alphabet: raising transition hooks, BaseException, start() keywords '
-            'that collide with class attributes, state functions without __name__, concurrent cycle() calls.',
+            'harness/props/c14.py. Outside the alphabet: raising transition hooks, BaseException, state functions '
+            'without __name__, concurrent cycle() calls, the time helper delta().',
     'tech': 'TLA+ spec (StateMachine.tla, HasStates.tla) + TLC model checking incl. liveness of cycle termination; '
             'spec->code replay of all TLC behaviours; code->spec TLC trace validation with silent internal labels; '
             'sys.settrace line-level preemption',
@@ -54,7 +57,9 @@ class World:
     """a real StateMachine whose state functions, cleanup function and transition hook are closures
     that log what they see and then do what `plan(kind, fn, idx)` says"""
 
-    def __init__(self, states, maxloops, plan):
+    def __init__(self, states, maxloops, plan, new=None):
+        """new = {'s': first state | 'none', 'kw': {...}}: arguments of the constructor;
+        maxloops=None: keep the machine's default (10)"""
         boot()
         import frappy.lib.statemachine as m
         self.m = m
@@ -63,8 +68,12 @@ class World:
         self.count = {}
         self.funcs = {s: self._state(s) for s in states}
         self.cleanup = self._cleanup()
-        self.sm = m.StateMachine(logger=LoggerStub(), transition=self._hook)
-        self.sm.maxloops = maxloops
+        new = new or {'s': 'none', 'kw': {}}
+        kw = {k: v for k, v in new['kw'].items() if v != '-'}
+        self.sm = m.StateMachine(self.funcs.get(new['s']), logger=LoggerStub(), transition=self._hook, **kw)
+        if maxloops is not None:
+            self.sm.maxloops = maxloops
+        self.events.append({'ev': 'new', 's': new['s'], 'kw': {k: str(kw.get(k, '-')) for k in KEYS}})
 
     # -- closures
     def _next(self, kind, fn):
@@ -112,15 +121,22 @@ class World:
             self.post(task)
 
     # -- operations
-    def post(self, task):
+    def post(self, task, bad=None):
+        """bad: additionally pass this keyword, which collides with a class attribute of StateMachine"""
         if task['k'] == 'stop':
             self.sm.stop()
         else:
             kw = {k: v for k, v in task['kw'].items() if v != '-'}
             if task['c'] != 'none':
                 kw['cleanup'] = self.cleanup
-            self.sm.start(self.funcs[task['s']], **kw)
-        self.events.append({'ev': 'post', 'task': task})
+            if bad:
+                kw[bad] = 7
+            try:
+                self.sm.start(self.funcs[task['s']], **kw)
+            except AttributeError:
+                self.events.append({'ev': 'rejected'})
+                return
+        self.events.append({'ev': 'post', 'task': task, 'bad': bad or '-'})
 
     def cycle(self):
         self.events.append({'ev': 'begin'})
@@ -204,10 +220,14 @@ def _replay(arg):
             return row[i]
         return {'k': 'retry'} if kind == 'call' else {'k': 'none'}   # not expected by the spec; shows up in calls
 
-    w = World(GEN_STATES, maxloops, plan)
+    new = beh[0] if beh and beh[0]['act'] == 'new' else None
+    w = World(GEN_STATES, maxloops, plan, new)
     for i, st in enumerate(beh):
         del w.events[:]
-        if st['act'] == 'cycle':
+        if st['act'] == 'new':
+            got = {'state': w.alpha()}
+            exp = {'state': st['exp']}
+        elif st['act'] == 'cycle':
             w.cycle()
             calls = [_norm(e) for e in w.events[1:-1]]
             last = w.events[-1]
@@ -256,15 +276,21 @@ def _rand_task(rnd):
     return task_start(rnd.choice(T_START), kw, rnd.choice(['K', 'K', 'none']))
 
 
-def _rand_plan(seed, reentrant):
-    """deterministic random program table: behaviour of call `i` of function `fn`"""
+BAD_KEYS = ['init', 'now', 'next_task', 'cleanup_reason', 'is_active', 'cycle']
+
+
+def _rand_plan(seed, reentrant, chain=0.0):
+    """deterministic random program table: behaviour of call `i` of function `fn`;
+    chain: extra probability of returning a next state (long chains, loop limit)"""
     def plan(kind, fn, i):
         rnd = random.Random(f'{seed}/{kind}/{fn}/{i}')
         post = [_rand_task(rnd)] if reentrant and rnd.random() < (0.25 if kind != 'hook' else 0.1) else []
         if kind == 'hook':
             return {'post': post}
         r = rnd.random()
-        if kind == 'call':
+        if kind == 'call' and rnd.random() < chain:
+            b = {'k': 'next', 's': rnd.choice(T_STATES)}
+        elif kind == 'call':
             if r < 0.40:
                 b = {'k': 'retry'}
             elif r < 0.55:
@@ -289,12 +315,27 @@ def _rand_plan(seed, reentrant):
     return plan
 
 
+def _variant(i):
+    """trace number -> (maxloops, chain probability, one start with a forbidden keyword?)"""
+    if i % 10 == 7:
+        return 1, 0.0, False
+    if i % 10 == 8:
+        return None, 0.85, False        # the machine's default limit (10), long chains
+    return T_MAXLOOPS, 0.0, i % 10 == 9
+
+
 def _random_trace(arg):
-    seed, nops = arg
+    seed, nops, (maxloops, chain, bad) = arg
     rnd = random.Random(seed)
-    w = World(T_STATES, T_MAXLOOPS, _rand_plan(seed, True))
-    for _ in range(nops):
-        if rnd.random() < 0.6:
+    new = None
+    if rnd.random() < 0.4:     # constructor with attributes and / or a first state
+        new = {'s': rnd.choice(T_START + ['none']), 'kw': {k: rnd.choice('123') for k in KEYS if rnd.random() < 0.5}}
+    w = World(T_STATES, maxloops, _rand_plan(seed, True, chain), new)
+    badpos = rnd.randrange(nops) if bad else -1
+    for n in range(nops):
+        if n == badpos:
+            w.post(task_start(rnd.choice(T_START), {'x': '2'}, 'K'), bad=rnd.choice(BAD_KEYS))
+        elif rnd.random() < 0.6:
             w.cycle()
         else:
             w.post(_rand_task(rnd))
@@ -480,16 +521,18 @@ def _conc_scenario(seed):
 # ------------------------------------------------------------------ HasStates
 
 HS_FILES = [SM_FILE, 'frappy/states.py']
-HS_STATES = ['s_a', 's_b', 's_c', 'k_1', 'k_2']
-HS_CODES = {'s_b': ('PREPARING', 'state b'), 's_c': ('FINALIZING', None), 'k_1': ('BUSY', 'after cleanup')}
+HS_STATES = ['s_a', 's_b', 's_c', 'k_1', 'k_2', 'k_3']
+HS_CODES = {'s_b': ('PREPARING', 'state b'), 's_c': ('FINALIZING', None), 'k_1': ('BUSY', 'after cleanup'),
+            'k_3': ('BUSY', 'restarting')}     # same text as the immediate status of a restart
+HS_OVERRIDE = [None, None, None, ('RAMPING', 'custom'), ('BUSY', 'going')]   # start_machine(status=...)
 HS_FINAL = [('IDLE', 'finished'), ('IDLE', ''), ('WARN', 'done with warning'), ('ERROR', 'failed')]
 HS_STOPPED = [('IDLE', 'stopped'), ('IDLE', 'halted'), ('WARN', 'stopped')]
-_hs_class = []
+_hs_class = {}
 
 
-def _hs_mod_class():
-    if _hs_class:
-        return _hs_class[0]
+def _hs_mod_class(all_changes=True):
+    if all_changes in _hs_class:
+        return _hs_class[all_changes]
     boot()
     from frappy.core import Drivable, Parameter
     from frappy.datatypes import Enum, StatusType
@@ -507,13 +550,27 @@ def _hs_mod_class():
 
     class Mod(HasStates, Drivable):
         status = Parameter(datatype=StatusType(Status))
+        all_status_changes = all_changes
         world = None
+
+        def _handler(self, kind, sm):
+            self.world.events.append({'ev': 'oncleanup', 'kind': kind, 'reason': self.world.reason(sm)})
+
+        def on_error(self, sm):
+            self._handler('error', sm)
+            return super().on_error(sm)
+
+        def on_restart(self, sm):
+            self._handler('start', sm)
+            return super().on_restart(sm)
+
+        def on_stop(self, sm):
+            self._handler('stop', sm)
+            return super().on_stop(sm)
 
         def state_transition(self, sm, newstate):
             self.world.events.append({'ev': 'hook', 'to': getattr(newstate, '__name__', 'none'),
-                                      'task': self.world.kind(sm.next_task),
-                                      'reason': 'error' if isinstance(sm.cleanup_reason, Exception)
-                                      else self.world.kind(sm.cleanup_reason)})
+                                      'task': self.world.kind(sm.next_task), 'reason': self.world.reason(sm)})
             super().state_transition(sm, newstate)
 
         def my_cleanup(self, sm):
@@ -523,15 +580,15 @@ def _hs_mod_class():
     for n in HS_STATES:
         setattr(Mod, n, mkstate(n))
     Mod.Retry, Mod.Finish, Mod.StatusEnum = Retry, Finish, Status
-    _hs_class.append(Mod)
+    _hs_class[all_changes] = Mod
     return Mod
 
 
 class HSWorld:
     """a real Drivable with the HasStates mixin; poll thread replaced by explicit doPoll calls"""
 
-    def __init__(self, plan):
-        cls = _hs_mod_class()
+    def __init__(self, plan, all_changes=True):
+        cls = _hs_mod_class(all_changes)
         import frappy.lib.statemachine as m
         self.m = m
         self.plan = plan
@@ -544,7 +601,8 @@ class HSWorld:
             def announce_update(self, moduleobj, pobj):
                 if pobj.name == 'status':
                     if pobj.readerror:
-                        world.events.append({'ev': 'update', 'busy': False, 'st': 'readerror', 'own': False})
+                        world.events.append({'ev': 'update', 'busy': False, 'code': 0, 'isbusy': False,
+                                             'isdriving': False, 'st': 'readerror', 'own': False})
                     else:   # own: sent by the thread that is inside start_machine()
                         world.events.append(dict(ev='update', own=world.requesting == threading.get_ident(),
                                                  **world.stat(pobj.value)))
@@ -571,9 +629,15 @@ class HSWorld:
     def kind(self, t):
         return 'none' if t is None else 'stop' if isinstance(t, self.m.Stop) else 'start'
 
+    def reason(self, sm):
+        return 'error' if isinstance(sm.cleanup_reason, Exception) else self.kind(sm.cleanup_reason)
+
     def stat(self, status):
+        """status as seen by the spec: code + the verdicts of the module's own busy predicates
+        (`busy` is only used to classify a rejected trace)"""
         code = int(status[0])
-        return {'busy': 300 <= code < 400, 'st': '%d:%s' % (code, status[1])}
+        return {'busy': 300 <= code < 400, 'code': code, 'st': '%d:%s' % (code, status[1]),
+                'isbusy': bool(self.mod.isBusy(status)), 'isdriving': bool(self.mod.isDriving(status))}
 
     def code(self, name):
         return getattr(self.mod.StatusEnum, name)
@@ -596,6 +660,8 @@ class HSWorld:
         if k == 'final':
             code, text = b['st']
             self.events.append({'ev': 'final', 'st': '%d:%s' % (int(self.code(code)), text)})
+            if (code, text) == ('IDLE', ''):
+                return self.mod.final_status()          # the defaults
             return self.mod.final_status(self.code(code), text)
         if k == 'raise':
             raise Raised('scripted')
@@ -605,12 +671,20 @@ class HSWorld:
         mod = self.mod
         if op['op'] == 'start':
             kw = {'cleanup': mod.my_cleanup} if op['c'] == 'K' else {}
+            if op.get('status'):
+                kw['status'] = (self.code(op['status'][0]), op['status'][1])
+            if not op.get('fast', True):
+                kw['fast_poll'] = False
             outer, self.requesting = self.requesting, threading.get_ident()
             try:
                 mod.start_machine(getattr(mod, op['s']), **kw)
             finally:
                 self.requesting = outer
-            self.events.append({'ev': 'started'})
+            self.events.append({'ev': 'started', 'fast': bool(op.get('fast', True))})
+        elif op['op'] == 'stopcmd':
+            active = mod._state_machine.is_active
+            mod.stop()                                  # the SECoP command: default stopped status
+            self.events.append({'ev': 'stopreq', 'active': bool(active), 'st': '%d:stopped' % int(self.code('IDLE'))})
         elif op['op'] == 'stop':
             active = mod._state_machine.is_active
             code, text = op['st']
@@ -625,7 +699,7 @@ class HSWorld:
     def quiet(self):
         sm = self.mod._state_machine
         self.events.append(dict(ev='quiet', active=sm.statefunc is not None, pending=self.kind(sm.next_task),
-                                **self.stat(self.mod.status)))
+                                fast=bool(self.mod.pollInfo.fast_flag), **self.stat(self.mod.status)))
 
 
 def _hs_rand_op(rnd, poll=0.6):
@@ -633,7 +707,10 @@ def _hs_rand_op(rnd, poll=0.6):
     if r < poll:
         return {'op': 'poll'}
     if r < poll + (1 - poll) * 0.6:
-        return {'op': 'start', 's': rnd.choice(HS_STATES[:3]), 'c': rnd.choice(['K', 'default', 'default'])}
+        return {'op': 'start', 's': rnd.choice(HS_STATES[:3]), 'c': rnd.choice(['K', 'default', 'default']),
+                'fast': rnd.random() < 0.7, 'status': rnd.choice(HS_OVERRIDE)}
+    if rnd.random() < 0.3:
+        return {'op': 'stopcmd'}
     return {'op': 'stop', 'st': rnd.choice(HS_STOPPED)}
 
 
@@ -663,7 +740,7 @@ def _hs_plan(seed, reentrant):
 def _hs_random_trace(arg):
     seed, nops = arg
     rnd = random.Random(seed)
-    w = HSWorld(_hs_plan(seed, True))
+    w = HSWorld(_hs_plan(seed, True), all_changes=seed % 3 != 0)
     for _ in range(nops):
         w.op(_hs_rand_op(rnd))
     return w.events
@@ -676,12 +753,13 @@ def _hs_conc_scenario(seed):
         k = n = None
         while True:
             rnd = random.Random(seed)
-            w = HSWorld(_hs_plan(seed, False))
-            w.op({'op': 'start', 's': rnd.choice(HS_STATES[:3]), 'c': rnd.choice(['K', 'default'])})
+            w = HSWorld(_hs_plan(seed, False), all_changes=seed % 4 != 0)
+            w.op({'op': 'start', 's': rnd.choice(HS_STATES[:3]), 'c': rnd.choice(['K', 'default']),
+                  'fast': rnd.random() < 0.7})
             for _ in range(nprefix):
                 w.op(_hs_rand_op(rnd, 0.75))
-            op2 = {'op': 'start', 's': rnd.choice(HS_STATES[:3]), 'c': 'default'} if kind == 'start' \
-                else {'op': 'stop', 'st': HS_STOPPED[1]}
+            op2 = {'op': 'start', 's': rnd.choice(HS_STATES[:3]), 'c': 'default', 'fast': True} if kind == 'start' \
+                else {'op': 'stop', 'st': HS_STOPPED[1]} if seed % 2 else {'op': 'stopcmd'}
             w.mod._state_machine._lock = LockProxy(w.mod._state_machine._lock)
             w.mod.accessLock = LockProxy(w.mod.accessLock)
             w.mod.updateLock = LockProxy(w.mod.updateLock)
@@ -721,7 +799,7 @@ def _hs_classify(trace, l):
         sig['request_while_run_ends'] = 'started' if window and 'started' in since else \
             'stopreq' if window and 'stopreq' in since else 'no'
     elif ev.get('ev') == 'quiet':
-        sig['state'] = 'active=%s pending=%s busy=%s' % (ev['active'], ev['pending'], ev['busy'])
+        sig['state'] = 'active=%s pending=%s busy=%s fast=%s' % (ev['active'], ev['pending'], ev['busy'], ev['fast'])
         sig['request_while_run_ends'] = 'started' if window and 'started' in since else \
             'stopreq' if window and 'stopreq' in since else 'no'
     return sig
@@ -731,6 +809,8 @@ def _hs_classify(trace, l):
 
 def _classify(trace, l):
     ev = trace[l - 1] if 0 < l <= len(trace) else {}
+    if ev.get('ev') == 'post' and ev.get('bad', '-') != '-':
+        return {'event': 'post', 'forbidden_keyword': 'accepted'}
     prev = [e['ev'] for e in trace[max(0, l - 3):l - 1]]
     return {'event': ev.get('ev'), 'after': prev[-1] if prev else None}
 
@@ -767,17 +847,23 @@ def run(chk):
 
     # code -> spec, single thread with re-entrant requests
     n = 300 if quick else 6000
-    traces = pool_map(_random_trace, [(chk.seed * 1000003 + i, 14 if i % 2 else 30) for i in range(n)])
-    metas = [{'mode': 'random', 'seed': chk.seed * 1000003 + i, 'nops': 14 if i % 2 else 30} for i in range(n)]
+    args = [(chk.seed * 1000003 + i, 14 if i % 2 else 30, _variant(i)) for i in range(n)]
+    traces = pool_map(_random_trace, args)
+    metas = [{'mode': 'random', 'seed': a[0], 'nops': a[1], 'variant': list(a[2])} for a in args]
     # code -> spec, second thread at every line of cycle()
     ns = 8 if quick else 150
     for part in pool_map(_conc_scenario, [chk.seed * 7919 + i for i in range(ns)], chunksize=1):
         for meta, tr in part:
             metas.append(dict(meta, mode='preempt'))
             traces.append(tr)
-    verdicts, st, tr = validate_traces('Trace_StateMachine', traces, 'Trace_StateMachine.cfg', timeout=1000)
-    chk.states += st
-    chk.transitions += tr
+    verdicts = {}
+    for ml, cfg in ((T_MAXLOOPS, 'Trace_StateMachine.cfg'), (1, 'Trace_StateMachine_m1.cfg'),
+                    (None, 'Trace_StateMachine_m10.cfg')):
+        idx = [i for i, m in enumerate(metas) if m.get('variant', [T_MAXLOOPS])[0] == ml]
+        vd, st, tr = validate_traces('Trace_StateMachine', [traces[i] for i in idx], cfg, timeout=1000)
+        chk.states += st
+        chk.transitions += tr
+        verdicts.update({idx[j]: v for j, v in vd.items()})
     for i, v in verdicts.items():
         chk.impl_traces += 1
         chk.case('t%d' % i, True)
@@ -812,8 +898,8 @@ def run(chk):
     chk.notes['hasstates_preempted_runs'] = sum(1 for m in metas if m['mode'] == 'preempt')
     chk.assumptions += ['thread switches are placed at line boundaries of frappy/lib/statemachine.py and '
                         'frappy/states.py (CPython GIL); the second thread performs ONE start/stop request per cycle',
-                        'state functions, cleanup function and hook are plain Python functions; raising hooks, '
-                        'BaseException and start() keywords colliding with class attributes are outside the alphabet']
+                        'state functions, cleanup function and hook are plain Python functions; raising hooks and '
+                        'BaseException are outside the alphabet']
     chk.exhaustive = False
 
 
@@ -833,7 +919,7 @@ def replay(chk, rep):
                     print(e)
         print('TLC rejected event', d['failed_at'])
     elif d.get('meta', {}).get('mode') == 'random':
-        for e in _random_trace((d['meta']['seed'], d['meta']['nops'])):
+        for e in _random_trace((d['meta']['seed'], d['meta']['nops'], tuple(d['meta']['variant']))):
             print(e)
         print('TLC rejected event', d['failed_at'])
     elif d.get('meta', {}).get('mode') == 'preempt':
